@@ -16,6 +16,7 @@ class Gen:
         self.nextv = 1
         self.tick = 10
         self.profile = profile
+        self.ranges = profile in ("ranges", "copy")
         self.steps = []
         if spare:
             for d in range(self.conf.nd):
@@ -71,6 +72,39 @@ class Gen:
         n = self.rng.choice(fl)
         self.a.remove(d, n)
         return "delete %d/%s" % (d, n)
+
+    def op_copy(self):
+        """cp -p of a file to another disk (same name, size and time stamp): candidate for copy detection"""
+        if self.conf.nd < 2:
+            return None
+        d = self.rng.randrange(self.conf.nd)
+        fl = [f for f in self.files(d) if f != "zz"]
+        if not fl:
+            return None
+        n = self.rng.choice(fl)
+        e = self.rng.choice([x for x in range(self.conf.nd) if x != d])
+        src = self.a.path(d, n)
+        with open(src, "rb") as f:
+            data = f.read()
+        if not data:
+            return None
+        st = os.lstat(src)
+        decoy = self.rng.random() < 0.25 and len(data) >= 1
+        if decoy:
+            data = bytes([data[0] ^ 0x5a]) + data[1:]          # same name, size, stamp - other content
+        dst = self.a.path(e, n)
+        if os.path.lexists(dst):
+            os.remove(dst)
+        with open(dst, "wb") as f:
+            f.write(data)
+        os.utime(dst, ns=(st.st_mtime_ns, st.st_mtime_ns))
+        return "copy%s %d/%s -> %d/%s" % (" (decoy)" if decoy else "", d, n, e, n)
+
+    def _range(self):
+        st = self.recorded()
+        bm = max(len(st["info"]), 1)
+        s = self.rng.randrange(0, bm)
+        return ["-S", str(s), "-B", str(self.rng.randint(1, bm))]
 
     def op_corrupt(self):
         st = self.recorded()
@@ -133,6 +167,8 @@ class Gen:
                 mid = "rm -f '%s'" % self.a.path(d, self.rng.choice(fl))
         if self.rng.random() < 0.15:
             flags.append("-E")
+        if self.ranges and self.rng.random() < 0.25:
+            flags += self._range()
         self.a.clock += self.rng.choice([0, 8, 100, 100000])
         r, out = self.rec.sync(*flags, midrun=mid)
         return "sync %s %s -> %s" % (flags, mid, out["exit"])
@@ -141,9 +177,12 @@ class Gen:
         self.a.clock += self.rng.choice([0, 8, 100, 100000])
         if name == "check":
             fl = ["-a"] if self.rng.random() < 0.3 else []
+            if self.ranges and self.rng.random() < 0.15:
+                fl += self._range()
             return "check %s -> %s" % (fl, self.rec.check(*fl)[1]["exit"])
         if name == "fix":
-            res = "fix -> %s" % self.rec.fix()[1]["exit"]
+            fl = self._range() if (self.ranges and self.rng.random() < 0.25) else []
+            res = "fix %s -> %s" % (fl, self.rec.fix(*fl)[1]["exit"])
             # the user removes the .unrecoverable leftovers (a second fix would rename them back and then stop
             # with "file ... disappeared": search.c:83, recorded as observation O1 in DESIGN.md)
             gone = []
@@ -167,6 +206,10 @@ class Gen:
         "mixed": [("add", 20), ("touch", 4), ("delete", 8), ("corrupt", 6), ("corrupt_parity", 4), ("lose_disk", 2),
                   ("lose_parity", 2), ("sync", 22), ("check", 8), ("fix", 10), ("scrub", 8), ("diff", 4)],
         "syncheavy": [("add", 30), ("touch", 6), ("delete", 14), ("sync", 40), ("diff", 5), ("check", 5)],
+        "ranges": [("add", 18), ("touch", 3), ("delete", 8), ("corrupt", 5), ("corrupt_parity", 3), ("lose_disk", 2),
+                   ("lose_parity", 1), ("sync", 26), ("check", 8), ("fix", 14), ("scrub", 4), ("diff", 2)],
+        "copy": [("add", 14), ("copy", 16), ("touch", 3), ("delete", 8), ("corrupt", 3), ("lose_disk", 2),
+                 ("sync", 28), ("check", 6), ("fix", 8), ("diff", 4)],
         "detect": [("add", 8), ("delete", 3), ("corrupt", 22), ("corrupt_parity", 16), ("sync", 14), ("check", 18),
                    ("scrub", 14), ("fix", 6)],
         "damage": [("add", 10), ("delete", 6), ("corrupt", 14), ("corrupt_parity", 8), ("lose_disk", 6), ("lose_parity", 5),
